@@ -271,7 +271,7 @@ def _account(chk, res):
     st = chk["status"]
     desc = chk["description"]
     if chk["id"].split(".")[-2:-1] == ["cover"] or ".cover." in chk["id"]:
-        res.covers[desc + " @ " + chk["location"].split(" in function ")[0]] = st
+        res.covers["%s @ %s [%s]" % (desc, chk["location"].split(" in function ")[0], chk["id"])] = st
         return
     res.checks_total += 1
     if st == "FAILURE":
@@ -453,6 +453,32 @@ def write_evidence(prop, tier, seed, coverage, assumptions, wall_s, violations):
         f.write("\n")
     os.replace(tmp, path)
     return path
+
+
+class MemBudget:
+    """Admit jobs while the sum of their memory caps stays under the budget."""
+
+    def __init__(self, total_gb=56.0, max_jobs=14):
+        self.total = total_gb
+        self.free = total_gb
+        self.jobs = 0
+        self.max_jobs = max_jobs
+        self.cv = threading.Condition()
+
+    def acquire(self, gb):
+        gb = min(gb, self.total)
+        with self.cv:
+            while self.free < gb or self.jobs >= self.max_jobs:
+                self.cv.wait()
+            self.free -= gb
+            self.jobs += 1
+        return gb
+
+    def release(self, gb):
+        with self.cv:
+            self.free += gb
+            self.jobs -= 1
+            self.cv.notify_all()
 
 
 def run_parallel(jobs, max_workers):
